@@ -604,4 +604,40 @@ pub fn send_to_gui(message: &str) {
             }
 """, "", "R15.4", "short FEN rows accepted, leaving sentinel squares inside the board"),
     ("C15", "ep-field-ignored", BD, """            pawn_double_move: en_passant_pos,""", """            pawn_double_move: None,""", "R15.3", "en-passant square of the FEN dropped (key and state disagree too)"),
+
+]
+
+# Behaviour-preserving refactors: every check must stay SILENT on these (false-alarm controls).
+# (name, file, old, new, note) ; several edits may share a name (applied together).
+EQUIV = [
+    ("rename-fen-king-locals", BD, "white_king_location = Point(row, col)", "white_king_location = Point(row, col) /* renamed below */", "placeholder so that the multi-edit applies"),
+    ("reorder-successor-prologue", MG,
+     """        let mut new_board = board.clone();
+        new_board.pawn_promotion = None;
+        new_board.swap_color(zobrist_hasher);
+
+        // update king location if we are moving the king""",
+     """        let mut new_board = board.clone();
+        new_board.swap_color(zobrist_hasher);
+        new_board.pawn_promotion = None;
+
+        // update king location if we are moving the king""", "swap and promotion reset exchanged"),
+    ("threefold-gt-one", DT, "if board_count >= 2 {", "if board_count > 1 {", "same predicate, other spelling"),
+    ("time-slice-reordered-arith", TC, "(base_time * MAX_USAGE / mtg).round() as u128", "(MAX_USAGE * base_time / mtg).round() as u128", "commuted product"),
+    ("eof-exit-status", UC, "        process::exit(0);", "        process::exit(2);", "other exit status on EOF"),
+    ("castle-tests-reordered", MG,
+     """    if is_check_cords(board, White, Point(BOARD_END - 1, BOARD_END - 3))
+        || is_check_cords(board, White, Point(BOARD_END - 1, BOARD_END - 2))""",
+     """    if is_check_cords(board, White, Point(BOARD_END - 1, BOARD_END - 2))
+        || is_check_cords(board, White, Point(BOARD_END - 1, BOARD_END - 3))""", "transit squares tested in the other order"),
+    ("king-class-via-max", MG,
+     """    (enemy_king.0 as i8 - square_cords.0 as i8).abs() <= 1
+        && (enemy_king.1 as i8 - square_cords.1 as i8).abs() <= 1""",
+     """    std::cmp::max(
+        (enemy_king.0 as i8 - square_cords.0 as i8).abs(),
+        (enemy_king.1 as i8 - square_cords.1 as i8).abs(),
+    ) <= 1""", "Chebyshev distance written with max"),
+    ("null-move-guard-reordered", EN, "    if allow_null && depth >= 3 && !is_check(board, board.to_move) {", "    if depth >= 3 && allow_null && !is_check(board, board.to_move) {", "conjuncts reordered"),
+    ("info-window-const", EN, "    let mate_window = 15;", "    let mate_window = 20;", "wider mate window (still consistent in all arms)"),
+    ("go-unknown-arm-comment", UC, "            _ => (),\n        }\n        i += 1;", "            _ => {}\n        }\n        i += 1;", "unit arm spelled as a block"),
 ]
